@@ -18,15 +18,19 @@ def showV : Verdict → String
   | .deny => "0"
   | .ok => "1"
   | .rewrite s => "=" ++ showP s
+  | .odd w => "odd:" ++ w
+  | .absent => "absent"
+  | .raise => "raise"
 
 def render : Ev → String
   | .lp s v => s!"lp {showP s} {if v then 1 else 0}"
-  | .cvp v s r => s!"cvp {showV v} {showP s} -> {showO r}"
+  | .cvp v s r => s!"cvp {showV v} {showP s} -> {if v.raises then "!err" else showO r}"
   | .sn s r => s!"sn {showP s} -> {showO r}"
   | .inc b n nm ts => s!"inc {showP b} {showP n} -> {showP nm} tries" ++ String.join (ts.map (fun t => " " ++ showP t))
   | .call f who args => s!"call {f} {who}" ++ String.join (args.map (fun t => " " ++ showP t))
   | .valid w p who op v => s!"{if w then "valid_write" else "valid_read"} {showP p} {who} {op} -> {showV v}"
   | .fs fn w p => s!"fs {fn} {if w then "w" else "r"} {showP p}"
+  | .mode b => if b then "master absent" else "master present"
   | .note s => s
 
 /-! ### parsing -/
@@ -38,16 +42,22 @@ def parseV (t : String) : Option Verdict :=
   if t == "0" then some .deny
   else if t == "1" then some .ok
   else if t.startsWith "=" then (unbr (t.drop 1).toString).map .rewrite
+  else if t.startsWith "odd:" then some (.odd (t.drop 4).toString)
+  else if t == "absent" then some .absent
+  else if t == "raise" then some .raise
   else none
 
 def parseO (t : String) : Option (Option CStr) :=
-  if t == "none" then some none else (unbr t).map some
+  if t == "none" || t == "!err" then some none else (unbr t).map some
 
 def parsePolicy (t : String) : Option Policy :=
   if t == "deny" then some .deny
   else if t == "allow" then some .allow
   else if t == "echo" then some .echo
   else if t.startsWith "fixed=" then (unbr (t.drop 6).toString).map .fixed
+  else if t == "raise" then some .raise
+  else if t.startsWith "raiseon=" then (unbr (t.drop 8).toString).map .raiseOn
+  else if t.startsWith "odd=" then (unbr (t.drop 4).toString).map (fun w => .odd (unstr w))
   else none
 
 /-- implementation trace line -> event -/
@@ -72,6 +82,8 @@ def parseEv (line : String) : Ev :=
       | some p, some v => .valid (vk == "valid_write") p who op v
       | _, _ => .note line
     else .note line
+  | ["master", "absent"] => .mode true
+  | ["master", "present"] => .mode false
   | ["fs", fn, k, p] => match unbr p with
     | some p => .fs fn (k == "w") p
     | none => .note line
@@ -91,6 +103,7 @@ def enumStrings (alpha : String) (len frm cnt : Nat) : List CStr :=
 
 structure MState where
   pol : Policy := .allow
+  absent : Bool := false      -- run with the master that has no valid_read / valid_write
   out : List String := []     -- newest first
 
 def MState.emit (s : MState) (evs : List Ev) : MState :=
@@ -132,11 +145,12 @@ def modelLine (s : MState) (line : String) : MState :=
   | ["uinc", b, al, len, frm, cnt] => match unbr b, len.toNat?, frm.toNat?, cnt.toNat? with
     | some b, some l, some f, some c => s.emit ((enumStrings al l f c).map (uInc b))
     | _, _, _, _ => bad
+  | ["master", "absent"] => { s with absent := true }.emit [.mode true]
   | ["fx", e, a] => match unbr a with
-    | some a => s.emit (.call e whoObj [a] :: efunEvents s.pol [] e a [])
+    | some a => s.emit (.call e whoObj [a] :: sysEvents s.absent s.pol [] e a [])
     | none => bad
   | ["fx", e, a, b] => match unbr a, unbr b with
-    | some a, some b => s.emit (.call e whoObj [a, b] :: efunEvents s.pol [] e a b)
+    | some a, some b => s.emit (.call e whoObj [a, b] :: sysEvents s.absent s.pol [] e a b)
     | _, _ => bad
   | ["inc", b, n] => match unbr b, unbr n with
     | some b, some n => s.emit (.call "include" "-" [b, n] :: includeEvents b n)
